@@ -2021,7 +2021,7 @@ fn witnesses() -> Vec<ImportCase> {
 fn import_generated(seed: u64, thorough: bool) -> Oracle {
     let mut or = Oracle::new("c20.import.generated");
     let mut cases = witnesses();
-    let n = if thorough { 6000 } else { 500 };
+    let n = if thorough { 10_000 } else { 1500 };
     for case in 0..n {
         let mut rng = Rng::derive(seed, "c20.import.generated", case);
         // one document in eight has a planted cycle or a dangling reference somewhere in its graph
@@ -2092,8 +2092,8 @@ pub fn run(driver: &Driver, seed: u64, thorough: bool, replay: Option<&serde_jso
     }
     let mut rep = Report::new("C20");
     rep.streams.push(clone_exhaustive(driver, if thorough { 3 } else { 2 }));
-    rep.streams.push(clone_random(driver, seed, if thorough { 60_000 } else { 6000 }));
-    rep.streams.push(page_stream(driver, seed, if thorough { 30_000 } else { 3000 }));
+    rep.streams.push(clone_random(driver, seed, if thorough { 100_000 } else { 15_000 }));
+    rep.streams.push(page_stream(driver, seed, if thorough { 50_000 } else { 8000 }));
     rep.oracles.push(import_generated(seed, thorough));
     rep.oracles.push(import_corpus(seed, thorough));
     rep
